@@ -912,3 +912,20 @@ def g_mono1(rng, level=0, n_random=100):
 def g_mono_rmul(rng, level=0, n_random=100):
     for _ in range(n_random):
         yield {'self': _rand_mono(rng, int(rng.integers(1, 4))), 'c': complex(rng.normal(), rng.normal())}
+
+
+def _g_named1(rng, level=0, n_random=12):
+    for q in range(n_random):
+        yield {'qubits': (q,)}
+
+
+for _nm in ('H', 'S', 'X', 'Y', 'Z'):
+    GENS[CI + _nm + '#1'] = _g_named1
+
+
+@gen(CI + 'CNOT#2')
+def g_cnot(rng, level=0, n_random=40):
+    for a in range(5):
+        for b_ in range(5):
+            if a != b_:
+                yield {'qubits': (a, b_)}
